@@ -965,11 +965,22 @@ out = [None] * n
 v = vector.obj(x=1.5, y=-2.5, z=0.75, t=9.0)
 w = vector.obj(rho=2.0, phi=0.5, eta=-0.25, tau=3.0)
 arr = vector.array({"x": [1.0, 2.0], "y": [0.5, -0.5], "z": [3.0, 4.0], "t": [9.0, 10.0]})
+v2 = vector.obj(x=0.5, y=1.5)
+w2 = vector.obj(rho=2.0, phi=-0.5)
+calls = [lambda: v.boost_p4(w).x, lambda: v.rotate_euler(0.1, 0.2, 0.3, "yxz").y, lambda: v.deltaR(w), lambda: v.to_rhophietatau().tau,
+         lambda: (v + w).t, lambda: v.rapidity, lambda: float(arr.boostZ(beta=0.3).t[1]), lambda: float(arr.deltaRapidityPhi(arr[::-1])[0]),
+         lambda: v.is_timelike(), lambda: v.to_Vector3D().cross(w.to_Vector3D()).z, lambda: (v - w).z, lambda: v @ w, lambda: (v2 + w2).x,
+         lambda: v2 @ w2, lambda: (v.to_Vector3D() - w.to_Vector3D()).y, lambda: float((arr + arr[::-1]).x[0]), lambda: float((arr @ arr)[1])]
 def work(i):
     barrier.wait()
     try:
-        r = [v.boost_p4(w).x, v.rotate_euler(0.1, 0.2, 0.3, "yxz").y, v.deltaR(w), v.to_rhophietatau().tau, (v + w).t, v.rapidity,
-             float(arr.boostZ(beta=0.3).t[1]), float(arr.deltaRapidityPhi(arr[::-1])[0]), v.is_timelike(), v.cross(w.to_Vector3D()).z if False else v.to_Vector3D().cross(w.to_Vector3D()).z]
+        # every thread starts at a different call: the first use of each lazily imported package races against first uses made
+        # through other entry points (a method's own import statement, the operator path, an array's ufunc path)
+        k = (i * 5) % len(calls)
+        order = list(range(k, len(calls))) + list(range(k))
+        r = [None] * len(calls)
+        for j in order:
+            r[j] = calls[j]()
         out[i] = [x.hex() if isinstance(x, float) else repr(x) for x in map(lambda q: float(q) if not isinstance(q, (bool, numpy.bool_)) else bool(q), r)]
     except BaseException as e:
         out[i] = ["EXC", type(e).__name__, str(e)[:200]]
